@@ -265,6 +265,9 @@ enum What {
     /// GameSpy 2 server that answers with a stream of replies to ANOTHER request id (one every 100 ms, 30 of them) and then
     /// falls silent: whatever the client makes of them, the call is bounded by its timeouts, not by the stream
     Gs2Stray { v6: bool, ms: u64 },
+    /// TCP peer that accepts and never reads, request far larger than the socket buffers (a 32 MiB host name in the Java
+    /// handshake): the write step is bounded by the write timeout
+    BigWrite { v6: bool, ms: u64 },
     Eco { v6: bool, ms: u64, hold: bool, variant: u8 },
     Echo { tcp: bool, v6: bool },
 }
@@ -337,6 +340,7 @@ fn build(tier: Tier) -> Vec<Case> {
                 v.push(Case { label: format!("eco (http) {} accept-then-hold, read timeout {ms} ms, other timeouts variant {variant}", if v6 { "::1" } else { "127.0.0.1" }), what: What::Eco { v6, ms: *ms, hold: true, variant } });
             }
         }
+        v.push(Case { label: format!("java (tcp) {} peer that never reads, 32 MiB handshake, timeouts 300 ms", if v6 { "::1" } else { "127.0.0.1" }), what: What::BigWrite { v6, ms: 300 } });
         v.push(Case { label: format!("gamespy2 {} server streaming replies to another request id, timeout 150 ms", if v6 { "::1" } else { "127.0.0.1" }), what: What::Gs2Stray { v6, ms: 150 } });
         for pages in [0usize, 1, 2] {
             v.push(Case { label: format!("master server {} silent after {pages} pages (built-in default timeout)", if v6 { "::1" } else { "127.0.0.1" }), what: What::Master { v6, ms: 4000, pages } });
@@ -400,7 +404,7 @@ impl Prop for C12 {
          data), unreal2 (trailing receives), quake3, bedrock, java (TCP), legacy 1.6 (TCP)} x silence point {before the first \
          reply, after each reply, never} + {TCP connection refused / UDP port closed} x {127.0.0.1, ::1} x read/write/connect \
          timeout {150 ms (quick); 150, 400 ms (thorough)} x retries {0, 1 (quick); 0, 1, 2}; plus the same settings deserialised from their JSON form; plus, for TCP, half a reply followed by silence on an open connection; eco over HTTP (accept-then-hold, \
-         refused), a GameSpy 2 server streaming 30 replies to another request id, and the master server (silent from the start, after one page, after two pages). The loopback servers are driven by the same reference models. Oracle: a server silent before the exchange is complete means a PacketReceive error (reference; inside Unreal 2's lists the twin's outcome); the number of receive timeouts of the deterministic twin run is at most the reference count N; the \
+         refused), a TCP peer that never reads against a 32 MiB request, a GameSpy 2 server streaming 30 replies to another request id, and the master server (silent from the start, after one page, after two pages). The loopback servers are driven by the same reference models. Oracle: a server silent before the exchange is complete means a PacketReceive error (reference; inside Unreal 2's lists the twin's outcome); the number of receive timeouts of the deterministic twin run is at most the reference count N; the \
          outcome class equals the outcome of the deterministic twin run under the virtual network with the same silence point \
          ; the call returns within N x timeout + 1.5 s, where N is read off the FAULT-FREE exchange (its natural timeouts + one that may end a greedy list + retries + 1 for the unit that meets the silence), not off the implementation's behaviour under the fault; over UDP the server must receive no more than (requests before the silence + retries x requests an attempt sends before its first receive) datagrams (hard watchdog at \
          4x: 'never times out'); every datagram the server received equals a request the twin run sent. Data path: UdpSocket / \
@@ -605,6 +609,50 @@ impl Prop for C12 {
                 match verdict {
                     None => ctx.sample(serde_json::json!({"case": case.label})),
                     Some((k2, d)) => ctx.violation(format!("real-socket:{k2}:tcp"), &[], format!("{}: {d}", case.label), d.clone(), "a receive-class error within (retries + 1) x timeout", vec![]),
+                }
+            }
+            What::BigWrite { v6, ms } => {
+                let ip = loop_ip(v6);
+                let Ok(listener) = TcpListener::bind((ip, 0)) else { return };
+                let port = listener.local_addr().unwrap().port();
+                let stop = Arc::new(AtomicBool::new(false));
+                let s2 = stop.clone();
+                let h = std::thread::spawn(move || {
+                    let _ = listener.set_nonblocking(true);
+                    let mut held = Vec::new();
+                    while !s2.load(Ordering::SeqCst) {
+                        if let Ok((s, _)) = listener.accept() {
+                            held.push(s); // accepted, never read
+                        }
+                        std::thread::sleep(Duration::from_millis(5));
+                    }
+                });
+                // one write attempt and one read attempt, each bounded by its timeout
+                let bound = Duration::from_millis(ms) * 2 + SLACK;
+                let t = ts(ms, 0);
+                let r = with_watchdog(bound * 4 + Duration::from_secs(5), move || {
+                    let settings = gamedig::games::minecraft::RequestSettings { hostname: "h".repeat(32 << 20), protocol_version: -1 };
+                    j(gamedig::games::minecraft::protocol::query_java(&SocketAddr::new(ip, port), t, Some(settings)))
+                });
+                stop.store(true, Ordering::SeqCst);
+                let _ = h.join();
+                ctx.counters.transitions += 1;
+                let verdict = match r {
+                    None => Some(("never-times-out".to_string(), "no return: the write of a request larger than the socket buffers is not bounded by the write timeout".to_string())),
+                    Some((res, elapsed)) => {
+                        if res.is_ok() {
+                            Some(("silent-peer-answered".to_string(), "Ok(..) from a peer that never wrote".to_string()))
+                        } else if elapsed > bound {
+                            Some(("too-slow".to_string(), format!("took {elapsed:?}, bound {bound:?}")))
+                        } else {
+                            None
+                        }
+                    }
+                };
+                ctx.distinct_key(&(case.label.clone(), verdict.clone()));
+                match verdict {
+                    None => ctx.sample(serde_json::json!({"case": case.label})),
+                    Some((k2, d)) => ctx.violation(format!("real-socket:{k2}:tcp"), &[], format!("{}: {d}", case.label), d.clone(), "an error within write timeout + read timeout (+ slack)", vec![]),
                 }
             }
             What::Gs2Stray { v6, ms } => {
